@@ -432,8 +432,21 @@ def symbol_cases(ctx, kind, maxlen, maxw, mode):
     ctx.vh("replay", mode=mode, infile=cases)
 
 
+def bits_traces(ctx):
+    """impl -> spec: long random histories on StackCoder<u8|u16|u32|u64|U3> with guards, re-imports and Exp-Golomb / Huffman
+    symbols interleaved; every bit-level event is validated by AbsBits.tla."""
+    n = 20000 if ctx.tier == "thorough" else 3000
+    base = os.path.join(ctx.work, "bitstrace")
+    ctx.vh("drive_bits", extra=["--n", str(n), "--trace", base])
+    for name in ("u8", "u16", "u32", "u64", "U3"):
+        ctx.validate_trace("AbsBits", "%s.%s.ndjson" % (base, name), what="StackCoder<%s> abstract" % name)
+    for c in ("guard", "reimport", "exp_golomb", "huffman", "len_at_word_boundary"):
+        ctx.require(c)
+
+
 @prop("C16")
 def c16(ctx):
+    bits_traces(ctx)
     bit_coders(ctx, "c16")
     symbol_cases(ctx, "expgolomb", 8, 255, "c16")
     symbol_cases(ctx, "expgolomb", 16, 70000 if ctx.tier == "thorough" else 3000, "c16")
